@@ -4,7 +4,8 @@
 //! The compile-time table of `checked_send` is computed by rustc (`GC` lines).
 use crate::conn::*;
 use crate::rng::hex;
-use mqtt_protocol_core::mqtt::connection::role::{Any, Client, RoleType, Server};
+use mqtt_protocol_core::mqtt::connection::role::{Any, Client, Server};
+use crate::csend::RoleX;
 use mqtt_protocol_core::mqtt::connection::Sendable;
 use mqtt_protocol_core::mqtt::packet::{v3_1_1, v5_0};
 use std::io::Write;
@@ -15,7 +16,7 @@ trait Fallback {
     const OK: bool = false;
 }
 impl<R, T> Fallback for Probe<R, T> {}
-impl<R: RoleType, T: Sendable<R, u16>> Probe<R, T> {
+impl<R: RoleX, T: Sendable<R, u16>> Probe<R, T> {
     #[allow(dead_code)]
     const OK: bool = true;
 }
@@ -161,12 +162,17 @@ pub fn generate(_tier: &str, _seed: u64, out: &mut dyn Write) {
                                     if carries {
                                         ops.push("acquire".into());
                                     }
-                                    ops.push(format!("send {} {}", pver, hex(&minimal(kind, pver, q))));
-                                    // and what follows a refusal: the connection must behave as before
-                                    ops.push("acquire".into());
-                                    ops.push("vacancy".into());
-                                    run_ops(role, 2, ver, true, &format!("gs-{role}-{ver}-{status}-{}{}-{pver}-{kind}-{q}", ns as u8, off as u8), &ops, out);
-                                    n += 1;
+                                    // once through `send`, once through `checked_send` (where the trait
+                                    // bounds admit the type for the role; otherwise it is `send` again)
+                                    for via in ["", " c"] {
+                                        let mut ops = ops.clone();
+                                        ops.push(format!("send {} {}{via}", pver, hex(&minimal(kind, pver, q))));
+                                        // and what follows a refusal: the connection must behave as before
+                                        ops.push("acquire".into());
+                                        ops.push("vacancy".into());
+                                        run_ops(role, 2, ver, true, &format!("gs-{role}-{ver}-{status}-{}{}-{pver}-{kind}-{q}{}", ns as u8, off as u8, via.trim()), &ops, out);
+                                        n += 1;
+                                    }
                                 }
                             }
                         }
